@@ -74,7 +74,11 @@ def make_hooks(plan):
                 plan.registered_cleanups.append(cid)
                 context.add_cleanup(make_cleanup(plan, cid, c.get("raises")))
             exc = plan.hook_faults.get(k)
-            if exc == "abort":
+            if exc == "skip":
+                # documented run-time exclusion: the before-hook skips its own element
+                if args and name in ("before_feature", "before_rule", "before_scenario"):
+                    args[0].skip()
+            elif exc == "abort":
                 context.abort(reason="hook #%d aborts the run" % k)
             elif exc:
                 raise _EXC[exc]("hook fault #%d in %s" % (k, name))
